@@ -1,6 +1,6 @@
 (* C15 — crash freedom and containment of malformed input. Property theorems only. *)
 From Coq Require Import List ZArith String.
-From RG Require Import Pure.Rid Pure.ValueDec Proofs.ValueDecProofs.
+From RG Require Import Pure.Rid Pure.ValueDec Proofs.ValueDecProofs Pure.RespDec Proofs.RespDecProofs.
 From RG Require Import Base.Value Comp.ResSub Proofs.ResSubProofs Comp.Throttle Pure.Lcs Pure.LcsTab.
 Import ListNotations.
 
@@ -66,3 +66,42 @@ Theorem C15_value_foreign_member_ignored : forall ms k v id,
   decode (TObj (ms ++ [(k, v, id)])) = decode (TObj ms).
 Proof. exact foreign_member_ignored. Qed.
 Print Assumptions C15_value_foreign_member_ignored.
+
+(* Answers to get requests (codec.DecodeGetResponse, model Pure/RespDec.v, tied by the `respdec` suite): accepted as a
+   model (collection) only when well-formed, without error, with a model and no collection (a collection and no model),
+   and every value proper - no delete action, nothing the value decoder rejects. *)
+Theorem C15_get_response_model_sound : forall p n,
+  decode_get p = GModel n ->
+  gp_syntax_ok p = true /\ gp_error p = None /\
+  exists m, gp_result p = Some {| g_model := Some m; g_coll := None |} /\ List.length m = n /\
+            forall v, In v m -> proper v = true.
+Proof. exact get_model_sound. Qed.
+Print Assumptions C15_get_response_model_sound.
+
+Theorem C15_get_response_collection_sound : forall p n,
+  decode_get p = GColl n ->
+  gp_syntax_ok p = true /\ gp_error p = None /\
+  exists c, gp_result p = Some {| g_model := None; g_coll := Some c |} /\ List.length c = n /\
+            forall v, In v c -> proper v = true.
+Proof. exact get_coll_sound. Qed.
+Print Assumptions C15_get_response_collection_sound.
+
+Theorem C15_get_response_model_complete : forall m,
+  (forall v, In v m -> proper v = true) ->
+  decode_get {| gp_syntax_ok := true; gp_error := None; gp_result := Some {| g_model := Some m; g_coll := None |} |} = GModel (List.length m).
+Proof. exact get_model_complete. Qed.
+Print Assumptions C15_get_response_model_complete.
+
+(* Answers to call / auth / new requests (codec.DecodeCallResponse): a resource response only for a valid rid and no
+   error; a result only without error and without resource. *)
+Theorem C15_call_response_resource_sound : forall p r,
+  decode_call p = CResource r ->
+  cp_syntax_ok p = true /\ cp_error p = None /\ cp_resource p = Some r /\ is_valid_rid r true = true.
+Proof. exact call_resource_sound. Qed.
+Print Assumptions C15_call_response_resource_sound.
+
+Theorem C15_call_response_result_sound : forall p id,
+  decode_call p = CResult id ->
+  cp_syntax_ok p = true /\ cp_error p = None /\ cp_resource p = None /\ cp_result p = Some id.
+Proof. exact call_result_sound. Qed.
+Print Assumptions C15_call_response_result_sound.
